@@ -39,7 +39,9 @@ fn size_of(seed: u64, n: u64) -> u32 {
     }
 }
 
-/// Child process body: never returns normally (killed by the parent)
+/// Child process body: never returns normally (killed by the parent).
+/// Four writer tasks append concurrently (disjoint key ranges) while the main task rotates blobs
+/// and requests dumps; every operation is logged before (I) and after its acknowledgement (A).
 pub fn child_main(args: &[String]) -> i32 {
     let dir = PathBuf::from(&args[0]);
     let seed: u64 = args[1].parse().unwrap_or(1);
@@ -47,31 +49,49 @@ pub fn child_main(args: &[String]) -> i32 {
     let log_path = dir.join("ops.log");
     let rt = crate::runner::runtime(true);
     rt.block_on(async move {
-        let mut log = std::fs::OpenOptions::new().create(true).append(true).open(&log_path).expect("log");
+        let log = std::sync::Arc::new(std::sync::Mutex::new(std::fs::OpenOptions::new().create(true).append(true).open(&log_path).expect("log")));
         let mut s: Storage<ArrayKey<8>> = builder(&dir.join("db"), false).build().expect("build");
         s.init().await.expect("init");
-        let _ = writeln!(log, "R");
-        let mut n = start;
+        let s = std::sync::Arc::new(s);
+        {
+            let mut l = log.lock().unwrap();
+            let _ = writeln!(l, "R");
+        }
+        let writers = if seed % 3 == 0 { 1u64 } else { 4 };
+        for w in 0..writers {
+            let s = s.clone();
+            let log = log.clone();
+            tokio::spawn(async move {
+                let mut n = start + w * 100_000;
+                loop {
+                    let size = size_of(seed, n);
+                    let val = (seed << 32) ^ n ^ 0x5555_0000_0000;
+                    {
+                        let mut l = log.lock().unwrap();
+                        let _ = writeln!(l, "I {} {} {}", n, size, val);
+                    }
+                    let r = s.write(key_of(n), Bytes::from(value_bytes(val, size)), BlobRecordTimestamp::new(n)).await;
+                    {
+                        let mut l = log.lock().unwrap();
+                        let _ = writeln!(l, "{} {}", if r.is_ok() { "A" } else { "E" }, n);
+                    }
+                    n += 1;
+                }
+            });
+        }
+        let mut i = 0u64;
         loop {
-            let size = size_of(seed, n);
-            let val = (seed << 32) ^ n ^ 0x5555_0000_0000;
-            let _ = writeln!(log, "I {} {} {}", n, size, val);
-            let r = s.write(key_of(n), Bytes::from(value_bytes(val, size)), BlobRecordTimestamp::new(n)).await;
-            if r.is_ok() {
-                let _ = writeln!(log, "A {}", n);
-            } else {
-                let _ = writeln!(log, "E {}", n);
-            }
-            let r = crate::rng::mix(seed ^ 0x77, n);
-            if r % 23 == 0 {
+            tokio::time::sleep(Duration::from_micros(300 + crate::rng::mix(seed, i) % 2000)).await;
+            let r = crate::rng::mix(seed ^ 0x77, i);
+            if r % 5 == 0 {
                 let _ = s.try_close_active_blob().await;
                 let _ = s.try_create_active_blob().await;
-            } else if r % 31 == 0 {
+            } else if r % 7 == 0 {
                 s.force_update_active_blob(|_| true).await;
-            } else if r % 17 == 0 {
+            } else if r % 3 == 0 {
                 let _ = s.free_excess_resources().await;
             }
-            n += 1;
+            i += 1;
         }
     });
     0
@@ -302,7 +322,7 @@ pub fn run(ctx: &Ctx, sh: &mut Shard, rng: &mut Rng) {
                         sh.violation(&ctx.known, "C06", ctx.seed, &format!("C06/kill/{}", sig), &detail, replay);
                         break;
                     }
-                    start = out.invoked + 1000 * (round + 1);
+                    start = (round + 1) * 1_000_000;
                 }
                 Err(p) => {
                     sh.violation(&ctx.known, "C06", ctx.seed, "C06/kill/panic", &p, replay);
